@@ -465,11 +465,11 @@ def run_inet(ctx, exe, proofs_ok):
     run = Runner(ctx, exe)
     if ctx.replay:
         rp = json.loads(Path(ctx.replay).read_text()).get("replay") or {}
-        if "lines" in rp:
+        if "lines" in rp:                       # a replay of the address half: exactly those lines
             report(ctx, run, run.check(rp["lines"]))
             if run.first_diff:
                 ctx.broken_correspondence("c18inet model vs implementation", "line `%s`\n model: %s\n impl:  %s" % run.first_diff)
-            return
+        return                                  # (a replay of the text half is handled by c18_text)
     corpus = VERIF / "corpus" / "C18" / "inet.txt"
     fails = []
     if corpus.exists():
